@@ -325,8 +325,9 @@ def _utf8(b):
 
 def _seg_ok(b):
     s = bytes(b)
+    # no C0 control / space either: the URL parser trims them at the ends and drops tab/newline
     return (len(s) > 0 and _utf8(s) and pct_decode(s).lower() not in (b".", b"..")
-            and not any(c in s for c in b"/\\?#\t\n\r"))
+            and not any(c in s for c in b"/\\?#") and all(c > 0x20 and c != 0x7F for c in s))
 
 
 def valid_case(item):
